@@ -381,12 +381,15 @@ UniformSubsets(n, kk) ==
 RandUniform(w, n) ==
   LET t == RandT(w, n)
       q == (2 ^ w - t) \div n
-      A == Cardinality(RandAccepted(w, n))
+      acc == RandAccepted(w, n)
+      A == Cardinality(acc)
+      cnt == [r \in 0 .. (n - 1) |-> Cardinality({x \in acc : RandResult(n, x) = r})]
   IN /\ (2 ^ w - t) % n = 0
      /\ A = n * q - 1
-     /\ \A r \in 0 .. (n - 1) : RandCount(w, n, r) = (IF r = t THEN q - 1 ELSE q)
+     /\ \A r \in 0 .. (n - 1) : cnt[r] = RandCount(w, n, r) \/ w > 6     \* (same count, cheaper form)
+     /\ \A r \in 0 .. (n - 1) : cnt[r] = (IF r = t THEN q - 1 ELSE q)
      /\ \A r \in 0 .. (n - 1) :                       \* | count/A - 1/n | * (n * A) < n  <=>  < 1/A
-          LET d == n * RandCount(w, n, r) - A IN -n < d /\ d < n
+          LET d == n * cnt[r] - A IN -n < d /\ d < n
      /\ 2 * A >= 2 ^ w - 2                            \* A >= 2^(w-1) - 1
 \* the limb form agrees with the direct one (checked at h = 2..4, used at h = 16)
 LimbEquiv(h, n) ==
